@@ -58,15 +58,6 @@ Proof.
 Qed.
 Print Assumptions C19_tokens_boundary_partial.
 
-Definition is_gap (s : list Z) (g : nat) : bool :=
-  forallb (fun x => negb ((idx (tstart x) <? Z.of_nat g) && (Z.of_nat g <? idx (tend x)))) (lex s).
-(* in the reformatted text no significant token overlaps the inserted bytes, and a comment token that overlaps them
-   lies inside them: the inserted text is trivia IN THE RESULT *)
-Definition inserted_is_trivia (s : list Z) (g : nat) (t : list Z) : bool :=
-  let lo := Z.of_nat g in let hi := Z.of_nat (g + length t) in
-  forallb (fun x => let a := idx (tstart x) in let b := idx (tend x) in
-                    negb ((a <? hi) && (lo <? b)) || (is_comment x && (lo <=? a) && (b <=? hi)))
-          (lex (insert_at s g t)).
 Definition C19_tokens_invariant_full : Prop :=
   forall s g t, is_gap s g = true -> inserted_is_trivia s g t = true -> lex_bad s = [] ->
     map (fun x => (tcls x, traw x)) (significant (lex (insert_at s g t))) =
@@ -76,19 +67,13 @@ Definition C19_tokens_invariant_full : Prop :=
 Theorem C19_slash_fuse_refuted : exists s g t,
   is_gap s g = true /\ lex_bad s = [] /\ inserted_is_trivia s g t = false /\
   map traw (significant (lex (insert_at s g t))) <> map traw (significant (lex s)).
-Proof.
-  exists f_src, 3%nat, f_cmt. split; [vm_compute; reflexivity|]. split; [vm_compute; reflexivity|].
-  split; [vm_compute; reflexivity|]. exact slash_fuse_witness.
-Qed.
+Proof. exact slash_fuse_refuted. Qed.
 Print Assumptions C19_slash_fuse_refuted.
 
 Theorem C19_lone_quote_refuted : exists s g t,
   is_gap s g = true /\ lex_bad s <> [] /\
   map traw (significant (lex (insert_at s g t))) <> map traw (significant (lex s)).
-Proof.
-  exists l_src, 6%nat, l_cmt. split; [vm_compute; reflexivity|].
-  split; [exact (proj2 lone_quote_witness) | exact (proj1 lone_quote_witness)].
-Qed.
+Proof. exact lone_quote_refuted. Qed.
 Print Assumptions C19_lone_quote_refuted.
 
 (* ---- the column does NOT always move with the inserted text (open finding F-C19-TAB-QUIRK):
@@ -97,10 +82,7 @@ Theorem C19_column_follows_text_refuted : exists s g t,
   t = [32] /\ is_gap s g = true /\
   map (fun x => (tcls x, line (tstart x), col (tstart x))) (lex (insert_at s g t)) =
   map (fun x => (tcls x, line (tstart x), col (tstart x))) (lex s).
-Proof.
-  exists q_src, 2%nat, [32]. split; [reflexivity|]. split; [vm_compute; reflexivity|].
-  exact (proj1 tab_quirk_witness).
-Qed.
+Proof. exact column_follows_text_refuted. Qed.
 Print Assumptions C19_column_follows_text_refuted.
 
 (* ---- (3) documentation comments are not inert (open finding F-C19-EXTERN-DOC): a comment inserted above a fn sets its
@@ -109,9 +91,5 @@ Theorem C19_doc_inert_refuted :
   (exists s t, doc_flags s [0] = [false] /\ doc_flags (insert_at s 0 t) [Z.of_nat (length t)] = [true] /\
                map traw (significant (lex (insert_at s 0 t))) = map traw (significant (lex s))) /\
   (exists s g, doc_flags s [Z.of_nat g] = [true] /\ doc_flags (insert_at s g [10]) [Z.of_nat g + 1] = [false]).
-Proof.
-  split.
-  - exists d_src, d_cmt. exact extern_insert_witness.
-  - exists (d_cmt ++ d_src), 11%nat. exact extern_blank_line_witness.
-Qed.
+Proof. exact doc_inert_refuted. Qed.
 Print Assumptions C19_doc_inert_refuted.
